@@ -616,4 +616,3 @@ func sutSpinning(dump string) string {
 	}
 	return ""
 }
-
